@@ -23,9 +23,11 @@ TRUSTED = ['Model/ActionLog.v is hand-written from docactions.py / action_summar
            'the value model and counted',
            'the encode/decode round trip of ApplyUndoActions (actions.get_action_repr / action_from_repr) is not modelled: '
            'cells are their encodings']
-ASSUMPTIONS = ['ValLaws: equal_encoding is an equivalence, strict_equal implies it, Column.set is idempotent and compatible '
-               'with it and leaves type defaults alone (hypothesis of every theorem; proved for the ZOps instance of the '
-               'examples; for the engine values it is what the event-trace tie exercises)',
+ASSUMPTIONS = ['ValLaws (equal_encoding is an equivalence, strict_equal implies it, Column.set is idempotent, compatible with it and '
+               'leaves type defaults alone) is a hypothesis of the generic theorems and is PROVED for the encoded-value model '
+               'the tie uses (EOps_laws; C01_undo_restores_encoded_values_partial), given tt_ok of the type table (defaults '
+               'are fixed points of their column class), which the trace check evaluates on the table read from the running '
+               'usertypes/column modules (laws monitor)',
                'proved class (C01_undo_restores_docs_calcs_partial, hypothesis bundle_ok2, a computable check evaluated on '
                'every recorded trace): doc actions first, then calc deltas, then the flush; start document well formed and '
                'free of names with the reserved "-" prefix; doc actions lossless (no formula column with values removed, no '
